@@ -121,7 +121,7 @@ pub fn expand_flow(
 
             FLOWS.remove(deps.storage, (flow.start_epoch, flow.flow_id));
 
-            let flow_amount_default_value = (flow_asset.amount, 0u64);
+            let flow_amount_default_value = (flow.flow_asset.amount, 0u64);
 
             let (_, (flow_amount, _)) = flow
                 .asset_history
